@@ -94,6 +94,13 @@ func executeCompaction(db *DB) (compactionMetadata *proto.CompactionMetadata, er
 	}()
 
 	var readers []sstables.SSTableReaderI
+	// every reader that was opened is closed again, also when a later table cannot be opened or scanned
+	defer func() {
+		for _, reader := range readers {
+			err = errors.Join(err, reader.Close())
+		}
+	}()
+
 	var iterators []sstables.SSTableMergeIteratorContext
 	for i := 0; i < len(paths); i++ {
 		reader, err := sstables.NewSSTableReader(
@@ -103,21 +110,15 @@ func executeCompaction(db *DB) (compactionMetadata *proto.CompactionMetadata, er
 		if err != nil {
 			return nil, err
 		}
+		readers = append(readers, reader)
 
 		scanner, err := reader.Scan()
 		if err != nil {
 			return nil, err
 		}
 
-		readers = append(readers, reader)
 		iterators = append(iterators, sstables.NewMergeIteratorContext(i, scanner))
 	}
-
-	defer func() {
-		for _, reader := range readers {
-			err = errors.Join(err, reader.Close())
-		}
-	}()
 
 	// tombstones may only be dropped when nothing older than the compacted run exists, otherwise a value in an older
 	// table that is not part of this compaction would become visible again
